@@ -1818,6 +1818,11 @@ def bounded(tier, seed, overlay_dir):
 # ---------------------------------------------------------------------------
 
 KILLS = [
+    # a "PERF" shortcut in front of the matching rule: on an exact-key miss the bare type/subtype is looked up first (seed C11-resolver-bare-type-shortcut;
+    # it verified until dict.get with a symbolic key was decided against the existing keys -- this kill guards that engine repair)
+    ('falcon/media/handlers.py', "            except KeyError:\n                handler = None\n",
+     "            except KeyError:\n                handler = self.data.get(media_type.partition(';')[0].rstrip())\n",
+     'Handlers._create_resolver#matcher-consulted-exactly-when-there-is-no-exact-key'),
     # the 5-tuple: type and subtype components swapped
     ('falcon/util/mediatypes.py', "        return (main_matches, sub_matches, exact_match, len(matching), self.quality)\n",
      "        return (sub_matches, main_matches, exact_match, len(matching), self.quality)\n", '_MediaRange.match_score#component-1-main-type-exact-not-wildcard'),
